@@ -56,9 +56,16 @@ var (
 type assumeFailed struct{}
 type diverged struct{ why string }
 
+// replayDone: a counterexample records only the inputs drawn before the failed
+// assertion; asking for more after a failure was recorded ends the replay.
+type replayDone struct{}
+
 func next(tag, sort string) string {
 	if cur == nil {
 		panic("rt: nondeterministic input requested outside the symbolic executor / replay")
+	}
+	if pos >= len(cur.Nondets) && res != nil && len(res.Failures) > 0 {
+		panic(replayDone{})
 	}
 	if pos >= len(cur.Nondets) {
 		panic(diverged{fmt.Sprintf("nondet #%d (%s %q) beyond the recorded %d", pos, sort, tag, len(cur.Nondets))})
@@ -176,6 +183,7 @@ func runCase(c *Case, f func()) *Result {
 			defer func() {
 				if p := recover(); p != nil {
 					switch x := p.(type) {
+					case replayDone:
 					case assumeFailed:
 						r.Assumed = true
 					case diverged:
